@@ -66,7 +66,7 @@ manifest = {
         for k, v in engines.items()
     ],
     'checks': checks,
-    'notes': 'All checks are model-checking style bounded-exhaustive explorations driving the real implementation; see DESIGN.md. Exit 2 = harness error.',
+    'notes': 'All checks are model-checking style bounded-exhaustive explorations (trace / input-shape enumeration, explicit-state BFS over API histories, crash-point enumeration of the recorded write log) that drive the real implementation and compare it with executable reference models; see DESIGN.md (sections 5: defects found and fixed or recorded, 7: corrections to the machinery, 8: which seeded changes each check catches, 11: enumeration rules). Open findings are listed in known_findings.json and printed as KNOWN-FINDING lines (C10, C18, C20). Exit 0 = held on everything explored, 1 = VIOLATION line(s), 2 = harness error (no verdict).',
     'not_applicable': na,
 }
 json.dump(manifest, open(f'{ROOT}/MANIFEST.json', 'w'), indent=1)
